@@ -168,10 +168,11 @@ Section Configure.
   (** time of the last record of the warm start file, [None] when it cannot be opened *)
   Variable wst : option cv.
 
-  (** ** configure_v2 (configure.py:107-174) *)
-  (** [if k not in config: config[k] = dict()] *)
+  (** ** configure_v2 (configure.py:107-173) *)
+  (** [if config.get(k) is None: config[k] = dict()] — a section that is missing, or present
+      without content (YAML "grid:" parses to None), becomes an empty one *)
   Definition ensure (c : cv) (k : string) : res cv :=
-    h <- contains c k ;; if h then Ok c else setitem c k (CDict []).
+    v <- getdef c k CNull ;; if is_null v then setitem c k (CDict []) else Ok c.
 
   (** the file an omitted grid file name stands for *)
   Definition first_file_v2 (p : string) : string :=
